@@ -74,6 +74,9 @@ func runProgram(p *program, sum *lib.Summary, cw *lib.CaseWriter, seen map[strin
 			if !seen[src] {
 				seen[src] = true
 				sum.DistinctNontrivial++
+				if len(src) < 2500 {
+					sum.Sample(map[string]any{"program": p.label, "engine": eng.name, "transaction_index": ti, "transaction": src, "logged": o.Logs})
+				}
 			}
 			replay := map[string]any{"program": p.label, "engine": eng.name, "transaction_index": ti, "transaction": src}
 			if o.Err != nil || o.Panic != nil {
